@@ -501,10 +501,28 @@ func pragmaTable(c *core.Ctx, s *core.Sink, pre *ssa.Function) {
 				good := false
 				if lab != nil && okv != nil {
 					for _, ref := range *okv.Referrers() {
-						if iff, ok := ref.(*ssa.If); ok {
+						if iff, ok := ref.(*ssa.If); ok && iff.Cond == ssa.Value(okv) {
 							if r := retOf(iff.Block().Succs[0]); r != nil && r.Results[0] == ssa.Value(lab) && retOf(iff.Block().Succs[1]) == nil {
 								good = true
 							}
+						}
+					}
+					// the label has no other use: it is returned on the accepted edge and nowhere else
+					for _, ref := range *lab.Referrers() {
+						switch x := ref.(type) {
+						case *ssa.Return:
+							under := false
+							for _, de := range core.DominatingConds(x.Block()) {
+								if de.Cond == ssa.Value(okv) && de.Val {
+									under = true
+								}
+							}
+							if !under {
+								good = false
+							}
+						case *ssa.DebugRef:
+						default:
+							good = false
 						}
 					}
 				}
